@@ -44,10 +44,15 @@ func c15WorkflowMethods() []string {
 	return verifMethodsOf((*workflowservice.WorkflowServiceClient)(nil))
 }
 
+// c15Ctx: the incoming metadata is the caller's; besides the translation-bypass header it may carry the
+// marker that proxy instances put on the calls they relay to each other (any caller can set it)
 func c15Ctx(bypass bool) context.Context {
 	md := metadata.Pairs("x", "y")
 	if bypass {
 		md.Set(common.RequestTranslationHeaderName, "false")
+	}
+	if verifNondetBool("intra-proxy-marker-header") {
+		md.Set(common.IntraProxyHeaderKey, common.IntraProxyHeaderValue)
 	}
 	return metadata.NewIncomingContext(context.Background(), md)
 }
